@@ -1,5 +1,6 @@
 #!/bin/bash
 export VERIF_EVIDENCE_DIR=/verif/build/evidence-scratch
+export VERIF_SEARCH_BUDGET=${VERIF_SEARCH_BUDGET:-45}
 # dev aid: which quick checks raise an alarm for which seeded change. usage: matrix.sh [seed ...]   (writes /verif/build/matrix.tsv)
 cd /verif
 seeds=${@:-$(ls seeded)}
